@@ -155,7 +155,7 @@ func c18Gen(tier string, seed int64) []fw.Case {
 				"write-idle-expiry-then-reset-zero", "write-idle-expiry-then-reset-future", "write-past-deadline-then-reset", "write-active-expiry",
 				"both-idle-expiry-setdeadline", "read-deadline-moved-while-blocked", "read-future-deadline-not-reached", "write-idle-expiry-then-only-read-reset",
 				"read-idle-expiry-with-partial-message", "write-idle-expiry-empty-write",
-				"read-active-past-deadline", "write-active-past-deadline",
+				"read-active-past-deadline", "write-active-past-deadline", "read-active-expiry-header-buffered",
 				"read-future-deadline-removed-idle", "write-future-deadline-removed-idle", "both-future-deadline-removed-idle", "read-future-deadline-removed-active",
 				"far-future-deadlines",
 			} {
@@ -879,8 +879,27 @@ func c18Deadline(r *fw.R, d c18Desc) {
 		}
 		nc.SetReadDeadline(time.Time{})
 		roundTrip("future")
-	case "read-active-expiry", "write-active-expiry", "read-deadline-moved-while-blocked", "read-active-past-deadline", "write-active-past-deadline":
+	case "read-active-expiry", "write-active-expiry", "read-deadline-moved-while-blocked", "read-active-past-deadline", "write-active-past-deadline", "read-active-expiry-header-buffered":
 		res := make(chan error, 1)
+		if d.DL == "read-active-expiry-header-buffered" {
+			// the first bytes of the next frame's header arrived in the same transport read as the message before
+			// it: the Read that waits for the rest of that header is an active call like any other
+			rng := fw.NewRand(d.Seed)
+			first := peer.Mask(wire.Data(wire.OpBinary, true, []byte("first"))).Bytes()
+			next := peer.Mask(wire.Data(wire.OpBinary, true, make([]byte, 300+rng.Intn(70000)))).Bytes()
+			hdr := 4
+			if len(next) > 65536+8 {
+				hdr = 10
+			}
+			if d.Role == RoleServer {
+				hdr += 4
+			}
+			peer.SendBytes(append(append([]byte(nil), first...), next[:2+rng.Intn(hdr-2)]...))
+			if n, err := io.ReadFull(nc, buf[:5]); err != nil || string(buf[:n]) != "first" {
+				r.Violate("C18/stream-read-failed", fmt.Sprintf("%s: reading the complete first message: %q %v", what, buf[:n], err), "")
+				return
+			}
+		}
 		t0 := time.Now()
 		if writeSide {
 			go func() {
@@ -907,7 +926,10 @@ func c18Deadline(r *fw.R, d c18Desc) {
 		select {
 		case err = <-res:
 		case <-time.After(20 * time.Second):
-			if inconclusive("blocked call not released") {
+			// (20 s of waiting is not explained by a scheduler hiccup of a fraction of a second: only a canary
+			// that overslept by seconds makes this inconclusive)
+			if over := time.Duration(canaryMax.Load()); over > 5*time.Second {
+				r.Inconclusivef("%s: blocked call not released (scheduler canary overslept %v)", what, over)
 				return
 			}
 			r.Violate("C18/active-deadline-ignored/"+d.DL, fmt.Sprintf("%s: the call was still blocked 20 s after its deadline passed (timer callbacks: idle=%d active=%d)", what, idleSeen(writeSide), activeSeen(writeSide)), "")
